@@ -821,6 +821,14 @@ def c10(tier, seed):
                ([op("cleanup", body=[op("ctx", text="in-cleanup")])] if i % 2 else []) + ENDINGS[["ret", "dataskip", "threshold"][i % 3]]
         out.append(scenario("c10-ctx-in-cleanup-%d" % i, {"body": body}, {"checks": 6, "seed": rng.randrange(1, 1 << 64), "nofailfile": "true", "shrinktime": "0s"},
                             tag={"ending": "context used in cleanup"}))
+    # a goroutine of the test case (joined by a cleanup) asks for the context -- nobody has so far -- just when the property function returns: it has seen
+    # "not cleaning up yet" and is held at rapid's gate before the slow path until the engine pops the first cleanup.  Whatever it is handed must be
+    # cancelled by the time the cleanups run, and must not be waiting for the next test case
+    for i in range(3 if tier == "quick" else 30):
+        body = [op("cleanup", body=[op("join"), op("ctx", text="in-cleanup")]), op("hold", text="ctx.checked", val="cleanup.pop"),
+                op("goasync", n=1, body=[op("ctx", text="goroutine")]), op("sleep", ms=3), draw(g("Int16"), "x", "x")] + ENDINGS[["ret", "dataskip", "threshold"][i % 3]]
+        out.append(scenario("c10-ctx-first-asked-at-return-%d" % i, {"body": body}, {"checks": 6, "seed": rng.randrange(1, 1 << 64), "nofailfile": "true", "shrinktime": "0s"},
+                            tag={"ending": "context first asked for while the function returns"}))
     # several goroutines of one invocation register cleanups at the same time, dozens each (some scenarios also hold them at rapid's gate
     # inside Cleanup's critical section): every one of them runs exactly once
     for i in range(10 if tier == "quick" else 80):
